@@ -42,13 +42,31 @@ def aof_compare(script, impl_lines, model_lines, reply_opts=None, digest_opts=No
         else:
             a.append(l)
     b = [l for l in model_lines if not l.startswith("IP ")]
+    # the command each reply line answers (SMEMBERS & co. range over a Go map: their items come in any order)
+    argvs = []
+    for l in script.lines:
+        f = l.split()
+        if f[0] == "C":
+            argvs.append([unhex(w).decode("latin-1") for w in f[2:]])
+        elif f[0] in ("RW", "RWK"):
+            argvs.append(["REWRITEAOF"])
+        elif f[0] == "WW":
+            n1 = int(f[3])
+            argvs.append([unhex(w).decode("latin-1") for w in f[4:4 + n1]])
+            argvs.append([unhex(w).decode("latin-1") for w in f[5 + n1:]])
+    nrep = 0
     for i in range(max(len(a), len(b))):
         x = a[i] if i < len(a) else "<missing>"
         y = b[i] if i < len(b) else "<missing>"
+        is_reply = x.startswith("R ")
+        k = nrep
+        if is_reply:
+            nrep += 1
         if x == y or _norm_line(x) == _norm_line(y):
             continue
-        if x.startswith("R ") and y.startswith("R "):
-            p, q = norm_tree(parse_reply(x[2:]), parse_reply(y[2:]))
+        if is_reply and y.startswith("R "):
+            opts = reply_opts(argvs[k]) if (reply_opts and k < len(argvs)) else {}
+            p, q = norm_tree(parse_reply(x[2:]), parse_reply(y[2:]), **opts)
             if p == q:
                 continue
         return (i, x, y)
